@@ -280,9 +280,9 @@ func c03Ops(thorough bool) []vsched.Op {
 	return ops
 }
 
-// c03ColdIdx: the pairs of these scripts are also explored from the
-// package's initial state (Huffman decoding tree not built).
-var c03ColdIdx = []int{0, 3}
+// c03ColdIdx: this script is also run against itself from the package's
+// initial state (Huffman decoding tree not built), in the thorough tier.
+const c03ColdIdx = 0
 
 // c03Warm puts the package into the state every call but the first sees:
 // Huffman decoding tree built, one buffer in the pool (exported API only;
@@ -297,7 +297,7 @@ func c03Warm() {
 func TestVerif_C03_globals(t *testing.T) {
 	vx.Run(t, "C03", func(c *vx.Ctx) {
 		bounds := vx.Pick(c, []int{1}, []int{1, 2})
-		c.Rule("concurrent part: for every unordered pair of scripts from a small alphabet (each script decodes one block — RFC 7541 C.3.1 / C.4.1 requests, a table size update followed by Huffman literals and a reference to the new entry, an EOS inside a Huffman string, an invalid index behind literals, a block truncated inside a Huffman value, a 300-octet Huffman value with a three-octet length, strings above SetMaxStringLength; thorough adds a C.6.1 response bytewise, a two-octet name index and an overflowing integer — on a fresh Decoder in one Write and on further fresh Decoders cut at 2-4 fixed partitions: inside integers, string lengths and Huffman data, with empty chunks) two threads run one script each (thorough: twice each) on the instrumented http2/hpack source, starting (programs warm/pair/…, all pairs) from the state after one Huffman decode and (programs pair/…, the pairs of two of the scripts) from the package's initial state; every schedule with at most B preemptions (quick B=1; thorough B=1 for every program, then B=2 as far as the budget reaches — the bound completed per program is recorded) at the scheduling points — before each statement mentioning a written package-level variable " + fmt.Sprint(zzWrittenGlobals) + ", sync.Once, sync.Pool Get/Put, and between any two Writes of a script — is executed; each script must produce its sequential transcript (byte counts, error types and texts, emitted fields, what dynamic indexes 62-64 resolve to afterwards) and every split run must agree with the script's own single-Write run on emitted fields, success/failure, the probes and the white-box dynamic table and saveBuf; chunks are cap==len copies overwritten after each Write")
+		c.Rule("concurrent part: for every unordered pair of scripts from a small alphabet (each script decodes one block — RFC 7541 C.3.1 / C.4.1 requests, a table size update followed by Huffman literals and a reference to the new entry, an EOS inside a Huffman string, an invalid index behind literals, a block truncated inside a Huffman value, a 300-octet Huffman value with a three-octet length, strings above SetMaxStringLength; thorough adds a C.6.1 response bytewise, a two-octet name index and an overflowing integer — on a fresh Decoder in one Write and on further fresh Decoders cut at 2-4 fixed partitions: inside integers, string lengths and Huffman data, with empty chunks) two threads run one script each (thorough: twice each) on the instrumented http2/hpack source, starting (programs warm/pair/…, all pairs) from the state after one Huffman decode and (thorough only: program pair/…, one script against itself, one call per thread) from the package's initial state; every schedule with at most B preemptions (quick B=1; thorough B=1 for every program, then B=2 as far as the budget reaches — the bound completed per program is recorded) at the scheduling points — before each statement mentioning a written package-level variable " + fmt.Sprint(zzWrittenGlobals) + ", sync.Once, sync.Pool Get/Put, and between any two Writes of a script — is executed; each script must produce its sequential transcript (byte counts, error types and texts, emitted fields, what dynamic indexes 62-64 resolve to afterwards) and every split run must agree with the script's own single-Write run on emitted fields, success/failure, the probes and the white-box dynamic table and saveBuf; chunks are cap==len copies overwritten after each Write")
 		c.Assume("concurrent part: statement granularity at mentions of written package-level variables; accesses to heap objects only reachable from them (Huffman tree nodes, pooled buffers) and mutation through method calls are not scheduling points; sync.Pool is one shared LIFO free list; fixed partitions only (the sequential part enumerates partitions)")
 		seq := 0
 		if !c.Quick() {
@@ -310,11 +310,10 @@ func TestVerif_C03_globals(t *testing.T) {
 			p.Name = "warm/" + p.Name
 			progs = append(progs, p)
 		}
-		var cold []vsched.Op
-		for _, i := range c03ColdIdx {
-			cold = append(cold, ops[i])
+		if !c.Quick() {
+			// first use (decoding tree not built yet): one program pair, last, one call per thread
+			progs = append(progs, vsched.PairPrograms("C03", zzResetGlobals, []vsched.Op{ops[c03ColdIdx]}, 0)...)
 		}
-		progs = append(progs, vsched.PairPrograms("C03", zzResetGlobals, cold, seq)...)
 		c.Note("globals_programs", len(progs))
 		c.Note("written_package_level_variables", zzWrittenGlobals)
 		vsched.RunBounds(c, "globals", progs, bounds)
